@@ -30,6 +30,8 @@ fn strategy_en(len: usize) -> BoxedStrategy<Case> {
             // listed findings: CSE array formulas that read their own range have history-dependent
             // values, and cut/paste of part of a CSE array leaves cells unevaluated
             c.ops.retain(|o| !matches!(o, Op::ArrayFormula { .. }));
+            // stays en/en: a locale switch in mid-history leads to the listed re-parse findings
+            c.ops.retain(|o| !matches!(o, Op::SetLocale(_)));
             c
         })
         .boxed()
